@@ -47,6 +47,9 @@ CLAIMED = {
  "C17": ("path-sensitive abstract interpretation (errpath) of the locator: check-to-use on the same SSA value under (ok=true, err=nil); who-may-open; enumeration of the containment predicate's return paths",
          "Decides, on every path of the locator's source, that each file-system call takes the very value handed to the containment predicate and is reached only where the predicate returned (true, nil); that the import runtime reaches the file system only through Resolve; "
          "and that the predicate can return true only with err=nil, no '..'+separator prefix and rel != '..' for Rel(root, sub). That filepath.Clean/Join/Rel normalise every string as intended is the standard library's contract and is not enumerated.", "3/C17"),
+ "C18": ("dataflow classification of line / last-newline variables in the lexer with a pairing rule, structural sibling agreement of the token emitters, must-pass-through ordering of emit vs write-back",
+         "Structural necessary conditions of true positions, decided on every block/path of the lexer: line and column base advance together; all emitters stamp Pos/Lline/Lpos with the same expressions; multi-line tokens are emitted before the advanced line is written back. "
+         "One site violates the pairing rule today (the `#` comment branch; known finding, pinned by two tests). Byte-exact positions for all inputs are value dependent and not decided.", "3/C18"),
 }
 
 NOT_YET = "check not built yet in this session (see DESIGN.md section 3 for the planned static rule)"
